@@ -46,6 +46,8 @@ pub enum TOp {
     FlipRows,
     FlipCols,
     Sort(u64, u64),
+    /// variant, line, k: the comparator / key function panics at its k-th call (C11)
+    SortFuse(u64, u64, u64),
     SetCell(u64, u64, u32),
     SetRowCell(u64, u64, u32),
 }
@@ -54,6 +56,19 @@ pub enum TOp {
 pub struct OCase { pub kind: u64, pub c: u64, pub r: u64, pub win: Win, pub data: Vec<u32>, pub op: TOp }
 
 fn key(x: &u32) -> u32 { (x.wrapping_sub(100_000)) / 1024 }
+
+thread_local! {
+    /// countdown for the panicking comparator / key function; FIRED records that it went off
+    static CMP_FUSE: std::cell::Cell<Option<u64>> = std::cell::Cell::new(None);
+    static FIRED: std::cell::Cell<bool> = std::cell::Cell::new(false);
+}
+fn fuse_tick() {
+    CMP_FUSE.with(|f| match f.get() {
+        Some(0) => { f.set(None); FIRED.with(|x| x.set(true)); panic!("injected comparator panic") }
+        Some(k) => f.set(Some(k - 1)),
+        None => {}
+    })
+}
 
 fn apply<V: TooDeeOpsMut<u32> + CopyOps<u32>>(v: &mut V, op: &TOp, base: *const u32, extra: &mut Vec<u64>) {
     let u = |x: &u64| *x as usize;
@@ -103,6 +118,21 @@ fn apply<V: TooDeeOpsMut<u32> + CopyOps<u32>>(v: &mut V, op: &TOp, base: *const 
                 _ => v.sort_col_ord::<()>(l),
             }
         }
+        TOp::SortFuse(var, line, k) => {
+            let l = u(line);
+            CMP_FUSE.with(|f| f.set(Some(*k)));
+            FIRED.with(|x| x.set(false));
+            match var {
+                0 => v.sort_by_row(l, |a, b| { fuse_tick(); key(a).cmp(&key(b)) }),
+                1 => v.sort_unstable_by_row(l, |a, b| { fuse_tick(); key(a).cmp(&key(b)) }),
+                2 => v.sort_by_row_key(l, |a| { fuse_tick(); key(a) }),
+                3 => v.sort_unstable_by_row_key(l, |a| { fuse_tick(); key(a) }),
+                6 => v.sort_by_col::<_>(l, |a, b| { fuse_tick(); key(a).cmp(&key(b)) }),
+                7 => v.sort_unstable_by_col(l, |a, b| { fuse_tick(); key(a).cmp(&key(b)) }),
+                8 => v.sort_by_col_key(l, |a| { fuse_tick(); key(a) }),
+                _ => v.sort_unstable_by_col_key(l, |a| { fuse_tick(); key(a) }),
+            }
+        }
         TOp::SetCell(c, r, x) => v[(u(c), u(r))] = *x,
         TOp::SetRowCell(c, r, x) => v[u(r)][u(c)] = *x,
     }
@@ -123,6 +153,7 @@ fn encode_op(op: &TOp, sigma: &[u64], o: &mut Vec<u64>) {
         TOp::FlipRows => o.push(12),
         TOp::FlipCols => o.push(13),
         TOp::Sort(v, l) => { o.extend([14, *v, *l, sigma.len() as u64]); o.extend(sigma); }
+        TOp::SortFuse(v, l, k) => { o.extend([17, *v, *l, *k, FIRED.with(|x| x.get()) as u64, sigma.len() as u64]); o.extend(sigma); }
         TOp::SetCell(c, r, x) => o.extend([15, *c, *r, *x as u64]),
         TOp::SetRowCell(c, r, x) => o.extend([16, *c, *r, *x as u64]),
     }
@@ -140,12 +171,12 @@ pub fn emit(out: &mut Out, prop: u32, case: &OCase) {
         encode_op(&case.op, sigma, &mut inp);
         inp
     };
-    let is_sort = matches!(case.op, TOp::Sort(..));
+    let is_sort = matches!(case.op, TOp::Sort(..) | TOp::SortFuse(..));
     if out.want_sample() { out.sample(&format!("C{:02} {:?}", prop, case)); }
     if !is_sort { out.begin(prop, 6, &header(&[])); }
     // the key line before the call (to read the permutation back for the unstable sorts)
     let key_line = |t: &TooDee<u32>| -> Vec<u32> {
-        if let TOp::Sort(var, line) = &case.op {
+        if let TOp::Sort(var, line) | TOp::SortFuse(var, line, _) = &case.op {
             let (x0, y0, nc, nr) = if case.kind == 0 || case.kind == 6 { (0, 0, c, r) } else {
                 let o = if case.kind == 4 { 1 } else { 0 };
                 let (a, b) = (e.0 - s.0, e.1 - s.1); if a == 0 || b == 0 { (0, 0, 0, 0) } else { (s.0 + o, s.1 + o, a, b) } };
@@ -166,6 +197,7 @@ pub fn emit(out: &mut Out, prop: u32, case: &OCase) {
         6 => { let mut v = TooDeeViewMut::new(c, r, t.data_mut()); apply(&mut v, &case.op, base, &mut extra) }
         _ => { let mut v = Third(t.view_mut(s, e)); apply(&mut v, &case.op, base, &mut extra) }
     })).is_ok();
+    CMP_FUSE.with(|f| f.set(None));
     let mut obs = vec![ok as u64];
     if ok { obs.extend(extra); }
     obs.push(t.data().len() as u64);
@@ -190,7 +222,7 @@ pub fn replay(out: &mut Out, prop: u32, inp: &[u64]) {
         8 => TOp::CopyFromTooDee(false, false, a[1], a[2], lst(a, 3)), 9 => TOp::CopyFromTooDee(true, true, a[1], a[2], lst(a, 3)),
         10 => TOp::CopyWithin(a[1], a[2], a[3], a[4], a[5], a[6]), 11 => TOp::Translate(a[1], a[2]),
         12 => TOp::FlipRows, 13 => TOp::FlipCols, 14 => TOp::Sort(a[1], a[2]),
-        15 => TOp::SetCell(a[1], a[2], a[3] as u32), _ => TOp::SetRowCell(a[1], a[2], a[3] as u32),
+        15 => TOp::SetCell(a[1], a[2], a[3] as u32), 17 => TOp::SortFuse(a[1], a[2], a[3]), _ => TOp::SetRowCell(a[1], a[2], a[3] as u32),
     };
     emit(out, prop, &OCase { kind: inp[1], c: inp[2], r: inp[3], win: (inp[4], inp[5], inp[6], inp[7]), data, op });
 }
@@ -454,4 +486,26 @@ pub fn gen_c04(out: &mut Out, tier: &str, rng: &mut Rng) {
             }
         }
     }
+}
+
+/// C11: the comparator / key function panics at its k-th call, every sort variant that
+/// takes one, owned arrays, windows and third-party implementors
+pub fn gen_c11_sort(out: &mut Out, tier: &str, rng: &mut Rng) {
+    let shapes: Vec<(u64, u64)> = if tier == "quick" { vec![(1, 1), (2, 3), (3, 2), (4, 4), (1, 5), (5, 1), (40, 2), (2, 40)] } else { vec![(1, 1), (2, 3), (3, 2), (4, 4), (1, 6), (6, 1), (5, 5), (40, 2), (2, 40), (3, 70)] };
+    for (nc, nr) in shapes { for kind in [0u64, 2, 3, 6] { for var in [0u64, 1, 2, 3, 6, 7, 8, 9] {
+        let rc = if kind == 0 || kind == 6 { Recv { kind, c: nc, r: nr, win: (0, 0, 0, 0), nc, nr } }
+                 else { Recv { kind, c: nc + 2, r: nr + 1, win: (1, 1, nc + 1, nr + 1), nc, nr } };
+        let is_col = var >= 6;
+        let (lines, n) = if is_col { (nc, nr) } else { (nr, nc) };
+        let ks: Vec<u64> = if n <= 6 { (0..=3 * n + 2).collect() } else { vec![0, 1, 2, n / 2, n - 1, n, 2 * n, 5 * n, 1000] };
+        for line in [0, lines - 1, lines] { for &k in &ks {
+            let mut data = plain(rc.c, rc.r);
+            let (x0, y0) = if kind == 0 || kind == 6 { (0, 0) } else { (rc.win.0, rc.win.1) };
+            if line < lines { for pos in 0..n {
+                let (cx, cy) = if is_col { (x0 + line, y0 + pos) } else { (x0 + pos, y0 + line) };
+                data[(cy * rc.c + cx) as usize] = 100_000 + (rng.below(3) * 1024) as u32 + pos as u32;
+            } }
+            emit(out, 11, &OCase { kind: rc.kind, c: rc.c, r: rc.r, win: rc.win, data, op: TOp::SortFuse(var, line, k) });
+        } }
+    } } }
 }
